@@ -293,7 +293,12 @@ class VK:
             return
         lhs_a, rhs_a = np.asarray(lhs, dtype=object), np.asarray(rhs, dtype=object)
         rhs_a = np.broadcast_to(rhs_a, lhs_a.shape)
-        refuted = any(not ring.iszero(co(lhs_a[i]) - co(rhs_a[i])) for i in np.ndindex(*lhs_a.shape))
+        refuted = False
+        for i in np.ndindex(*lhs_a.shape):
+            d = co(lhs_a[i]) - co(rhs_a[i])
+            if (len(d.t) > 60 and s._probe_nonzero(d)) or not ring.iszero(d):
+                refuted = True
+                break
         s.canaries.append({"name": f"{s.prefix}/canary/{clause}", "refuted": bool(refuted)})
 
     def canary_bool(s, clause, refuted):
